@@ -156,7 +156,7 @@ var F = &proto.Family{ID: "C05", Gen: gen, Check: check, OutcomeKey: func(r *pro
 func genE2e(tier string) []proto.RTItem {
 	var items []proto.RTItem
 	for _, pr := range []struct{ p, m, h string }{{"icmp", "", "203.0.113.77"}, {"tcp", "syn", "203.0.113.77"}, {"udp", "", "203.0.113.77"}, {"icmp", "", "2001:db8::77"}, {"udp", "", "2001:db8::77"}} {
-		for _, world := range []string{"destination-answers", "time-exceeded-from-the-target-address", "silence"} {
+		for _, world := range []string{"destination-answers", "time-exceeded-from-the-target-address", "silence", "unreachable-from-a-router-in-front"} {
 			r := proto.RTScn{Hostname: pr.h, Protocol: pr.p, Method: pr.m, MinTTL: 1, MaxTTL: 4, DelayMs: 10, TimeoutMs: 100, Queries: 1, E2e: 2, Dest: 3, IPIDBase: 500, EchoBase: 41, WantV6: strings.Contains(pr.h, ":")}
 			te := "te28"
 			if r.WantV6 {
@@ -167,6 +167,10 @@ func genE2e(tier string) []proto.RTItem {
 				r.Hops = map[int]proto.HopSpec{4: {Form: te, AtTarget: true}}
 			case "silence":
 				r.Hops = map[int]proto.HopSpec{4: {Silent: true}}
+			case "unreachable-from-a-router-in-front":
+				// the destination never answers; the router in front of it reports host unreachable / administratively
+				// prohibited, quoting the probe: no answer from the destination, the sample is 0
+				r.Hops = map[int]proto.HopSpec{4: {Form: "duHost", From: proto.Router(r.WantV6, 0, 9).String()}, 3: {Form: "duAdmin", From: proto.Router(r.WantV6, 0, 9).String()}}
 			}
 			fam := ""
 			if r.WantV6 {
